@@ -379,6 +379,9 @@ fn c06_ws_client(case: &Case) {
     if simkernel::choose(8) == 0 {
         return c06_stall_then_silent(case);
     }
+    if simkernel::choose(6) == 0 {
+        return c06_timeout_with_held_siblings(case);
+    }
     match simkernel::choose(4) {
         0 | 1 => c06_fault(case),
         2 => c06_timeout_race(case),
@@ -702,6 +705,96 @@ fn c06_cancel(case: &Case) {
         drop(client);
         let _ = timeout(Duration::from_secs(10), server).await;
         case.nontrivial();
+    });
+}
+
+/// One call times out while 2-5 sibling calls (lower and higher ids) are still pending; the
+/// server answers the siblings only afterwards, in a seeded order.
+fn c06_timeout_with_held_siblings(case: &Case) {
+    let timeout_ms = pick(&[5u64, 20, 100]);
+    let n_sib = range(2, 5) as u64;
+    let victim_pos = simkernel::choose(n_sib as u32 + 1) as u64;
+    let answer_victim_late = coin();
+    case.sample(json!({"scenario": "timeout-with-held-siblings", "timeout_ms": timeout_ms, "siblings": n_sib, "siblings_started_before_victim": victim_pos, "late_victim_response": answer_victim_late}));
+    net::set_config(NetConfig { capacity: 65_536, lat_min: 0, lat_max: pick(&[0u64, 50_000]), max_segment: 0 });
+    let total = n_sib + 1;
+    let case = case.clone();
+    aio::run(&case.clone(), 3_600, async move {
+        let listener = TcpListener::bind("127.0.0.1:0").await.unwrap();
+        let addr = listener.local_addr().unwrap();
+        let server = tokio::spawn(async move {
+            let Some((ws, _)) = raw_accept(&listener).await else { return };
+            let (mut sink, mut stream) = ws.split();
+            let mut held: Vec<Frame> = Vec::new();
+            while (held.len() as u64) < total {
+                match timeout(Duration::from_millis(2_000), stream.next()).await {
+                    Ok(Some(Ok(WsMessage::Binary(b)))) => {
+                        if let Some(f) = parse_frame(&b) {
+                            held.push(f);
+                        }
+                    }
+                    Ok(Some(Ok(_))) => {}
+                    _ => return,
+                }
+            }
+            sleep_ms(timeout_ms + 20).await;
+            while !held.is_empty() {
+                let f = held.remove(simkernel::choose(held.len() as u32) as usize);
+                if f.query_str().ends_with("/victim") && !answer_victim_late {
+                    continue;
+                }
+                if sink.send(WsMessage::Binary(echo_of(&f).encode())).await.is_err() {
+                    return;
+                }
+            }
+            while let Some(Ok(m)) = stream.next().await {
+                if let WsMessage::Binary(b) = m
+                    && let Some(f) = parse_frame(&b)
+                    && sink.send(WsMessage::Binary(echo_of(&f).encode())).await.is_err()
+                {
+                    return;
+                }
+            }
+        });
+        let client = match WebSocketClient::connect(&format!("ws://{addr}/repe")).await {
+            Ok(c) => c,
+            Err(e) => {
+                case.harness_error(format!("connect failed: {e}"));
+                return;
+            }
+        };
+        let mut hs = Vec::new();
+        for k in 0..=n_sib {
+            let c = client.clone();
+            let case = case.clone();
+            if k == victim_pos {
+                hs.push(tokio::spawn(async move {
+                    let r = c.call_with_formats_and_timeout("/echo/victim", 1, Some(b"victim-body"), 0, Duration::from_millis(timeout_ms)).await;
+                    case.check(r.is_err(), "ok-without-response", || "the victim was answered only after its deadline but returned Ok".into());
+                }));
+            } else {
+                let t = 100 + k;
+                hs.push(tokio::spawn(async move {
+                    if let Err(e) = do_call(&c, CallKind::Json, t, None).await {
+                        let class = if e.starts_with("WRONG-RESPONSE") { "wrong-response" } else { "unrelated-call-failed" };
+                        case.fail(class, format!("sibling call {t} of a timed-out call: {e}"));
+                    }
+                }));
+            }
+            sleep_us(200).await;
+        }
+        for h in hs {
+            let _ = h.await;
+        }
+        sleep_ms(50).await;
+        if let Err(e) = do_call(&client, CallKind::Json, 777, None).await {
+            case.fail("unrelated-call-failed", format!("call after a timed-out call: {e}"));
+        }
+        case.check(client.verif_pending_len() == 0, "pending-residue", || format!("{} pending entries after timeout with siblings", client.verif_pending_len()));
+        drop(client);
+        let _ = timeout(Duration::from_secs(10), server).await;
+        case.nontrivial();
+        case.probe("timeout_with_siblings_pending");
     });
 }
 
